@@ -194,18 +194,9 @@ def mxint2bitstore(f: Union[str, float]) -> BitStore:
         return BitStore('01111111')
     if f <= -128:  # -2
         return BitStore('10000000')
-    # Want to round to nearest, so move by 0.5 away from zero and round down by converting to int
-    if f >= 0.0:
-        f += 0.5
-        i = int(f)
-        # For ties-round-to-even
-        if f - i == 0.0 and i % 2:
-            i -= 1
-    else:
-        f -= 0.5
-        i = int(f)
-        if f - i == 0.0 and i % 2:
-            i += 1
+    # Round to nearest with ties to even. The built-in round() does this exactly; adding 0.5 first
+    # can itself round (0.5 + 2**-53 becomes 1.0) and then looks like a tie.
+    i = round(f)
     return int2bitstore(i, 8, True)
 
 
